@@ -14,7 +14,7 @@ fn range<T: Dom>(vk: VK, k: usize, b: Bound, positive: bool, label: String) {
     let mut v = build::<T>(&vk, echo());
     let mut cnt = 0usize;
     for t in 0..k {
-        let x = T::input(&format!("x{t}"));
+        let x = T::input(&format!("{}x{t}", if positive { "pos" } else { "" }));
         if positive { T::assume(lt(T::zero(), x)); }
         v.update(x);
         cnt += 1;
@@ -126,6 +126,19 @@ pub fn units(tier: Tier, _seed: u64) -> Vec<Unit> {
             }
         }
     }
+    // larger windows along sampled comparison paths
+    let first_big = u.len();
+    for &n in &(if tier == Tier::Quick { vec![8usize, 16] } else { vec![6usize, 8, 12, 16, 32] }) {
+        let k = n + 6;
+        for (vk, b, pos, label) in [(VK::Rsi(n), Bound::Range(0.0, 100.0), false, "0 <= out <= 100"), (VK::MyRSI(n), Bound::Range(-1.0, 1.0), false, "|out| <= 1"), (VK::HLNormalizer(n), Bound::Range(-1.0, 1.0), false, "|out| <= 1"),
+            (VK::NET(n.min(12)), Bound::Range(-1.0, 1.0), false, "|out| <= 1"), (VK::BinaryEntropy(n), Bound::Range(0.0, 1.0), false, "0 <= out <= 1"), (VK::WelfordOnline(n), Bound::Ge0, false, "out >= 0"), (VK::CoG(n), Bound::CogBound, true, "|out| <= (n-1)/2 for positive inputs"),
+            (VK::LaguerreRSI(n), Bound::Range(0.0, 1.0), false, "0 <= out <= 1")] {
+            let l = label.to_string();
+            u.push(unit!(format!("C07/{}/k={k}/sample-path", vk.name()), range(vk.clone(), k, b.clone(), pos, l.clone())));
+        }
+        u.push(unit!(format!("C07/Min<=Sma,Alma,newest<=Max/N={n}/k={k}/sample-path"), sandwich(n, k)));
+    }
+    for x in u.iter_mut().skip(first_big) { x.concolic = Some(9); x.budget_s = 30.0; x.max_decisions = 60000; }
     u.push(unit!("C07/WelfordRolling/k=8", range(VK::WelfordRolling, 8usize, Bound::Ge0, false, "out >= 0".to_string())));
     u.push(unit!("C07/Tanh/k=4", range(VK::Tanh, 4usize, Bound::Range(-1.0, 1.0), false, "|out| <= 1".to_string())));
     u.push(unit!("C07/GTE,LTE/k=5", clip(5usize)));
@@ -135,7 +148,7 @@ pub fn units(tier: Tier, _seed: u64) -> Vec<Unit> {
 pub fn meta() -> Meta {
     Meta {
         functions: vec!["Rsi", "MyRSI", "HLNormalizer", "CorrelationTrendIndicator", "NoiseEliminationTechnology", "Tanh", "PolarizedFractalEfficiency (identity, Sma(2), Ema(2) average)", "LaguerreRSI", "BinaryEntropy", "EhlersFisherTransform (identity, Ema(2) and SuperSmoother(1|2) average)", "WelfordOnline", "WelfordRolling", "Vsct", "Min", "Max", "Sma", "Alma", "GTE", "LTE", "Drawdown", "CenterOfGravity — each ::{new,update,last}"],
-        bounds: "N in {2,3} (quick) / {2..5} (thorough; NET to 5, LaguerreRSI to 4, EFT to 3); k = 2N+2 (N+2..N+4 for the heavily branching views); inputs unconstrained reals (positive where the statement says so); symbolic clip point for GTE/LTE; all comparison outcomes",
+        bounds: "N in {2,3} (quick) / {2..5} (thorough; NET to 5, LaguerreRSI to 4, EFT to 3); k = 2N+2 (N+2..N+4 for the heavily branching views); inputs unconstrained reals (positive where the statement says so); symbolic clip point for GTE/LTE; all comparison outcomes; in addition N in {8,16} (quick) / {6,8,12,16,32} along a sampled comparison path for the range obligations that stay within the solver's reach",
         outside: vec!["the f64 clause 'up to a few ulps of the bound': decided over the reals here; engine K covers comparison-only kernels (see kani/)", "N > 5, longer streams"],
         assumptions: vec!["|tanh| < 1, exp > 0 and monotonicity of ln with ln(199) < 5.2933049 are axioms about libm functions (uninterpreted in the solver)", "PFE: the documented bound contradicts the formula C11 prescribes (flat window gives N/(N-2)); this is a known finding, and a second obligation checks that PFE leaves [-1,1] only where that reference formula does"],
     }
